@@ -143,6 +143,8 @@ def analyse_module(mod: S.Module, all_classes, report, oblige):
             if isinstance(n, ast.Name) and isinstance(n.ctx, ast.Load) and n.id in md:
                 par = getattr(n, "_parent", None)
                 ok, why = _default_use_ok(n, par)
+                if not ok and isinstance(par, ast.Call) and n in par.args and _callee_only_reads(mod, cname, par, par.args.index(n), 0):
+                    ok = True      # handed to a helper of the same class / module that only reads it (checked in the helper, two levels deep)
                 if not ok:
                     report("R-C13.3", mod, qual, par if par is not None else n, f"mutable default argument `{n.id}` {why}")
                 oblige("R-C13.3", mod, qual, par if par is not None else n, ok)
@@ -163,6 +165,36 @@ def analyse_module(mod: S.Module, all_classes, report, oblige):
             if isinstance(n, ast.Attribute) and isinstance(n.value, ast.Name) and (n.value.id, n.attr) in AMBIENT_ATTRS and not scope.is_local(n.value.id):
                 report("R-C13.5", mod, qual, getattr(n, "_parent", n), f"reads ambient process state {n.value.id}.{n.attr}")
                 oblige("R-C13.5", mod, qual, n, False)
+
+
+def _callee_only_reads(mod, cname, call, argpos, depth):
+    """the callee of `call` (a method of the same class or a function of the same module) uses its parameter number argpos only in ways
+    that neither mutate nor retain it"""
+    f = call.func
+    callee = None
+    skip_self = 0
+    if isinstance(f, ast.Attribute) and isinstance(f.value, ast.Name) and f.value.id == "self" and cname and cname in mod.classes:
+        callee = {m.name: m for m in mod.classes[cname].body if isinstance(m, ast.FunctionDef)}.get(f.attr)
+        skip_self = 1
+    elif isinstance(f, ast.Name):
+        callee = mod.functions.get(f.id)
+    if callee is None or depth > 2 or any(isinstance(a, ast.Starred) for a in call.args):
+        return False
+    params = callee.args.args[skip_self:]
+    if argpos >= len(params):
+        return False
+    pname = params[argpos].arg
+    for u in ast.walk(callee):
+        if isinstance(u, ast.Name) and u.id == pname:
+            if isinstance(u.ctx, ast.Store):
+                return False
+            par = getattr(u, "_parent", None)
+            ok, _why = _default_use_ok(u, par)
+            if not ok and isinstance(par, ast.Call) and u in par.args and _callee_only_reads(mod, cname, par, par.args.index(u), depth + 1):
+                ok = True
+            if not ok:
+                return False
+    return True
 
 
 def _default_use_ok(n, par):
